@@ -350,7 +350,15 @@ int main(int argc, char** argv) {
     std::signal(SIGPIPE, SIG_IGN);
     verif::Handler h;
     h.reset = [] { reset_all(); };
-    h.op = [](const std::vector<std::string>& t, const std::string&) -> std::string { return do_op(t); };
+    // watchdog: process_protocol can spin forever when handle_identity_ready closes the session inside its
+    // loop (unreachable in the repaired server, reachable in mutants); SIGALRM then kills the harness and the
+    // framework reports `crash:signal:SIGALRM` with the op list.
+    h.op = [](const std::vector<std::string>& t, const std::string&) -> std::string {
+        ::alarm(45);
+        std::string out = do_op(t);
+        ::alarm(0);
+        return out;
+    };
     const int rc = verif::run_lines(argc, argv, h);
     for (auto& [k, c] : clients) if (c.fd >= 0) ::close(c.fd);
     clients.clear();
